@@ -113,8 +113,8 @@ def r_opt_deref(model, rep, only=None):
                    msg="" if not bad else "result of %s may be None but is dereferenced without a None test (line %s: %s) -- "
                                          "an AttributeError/TypeError would escape instead of ValueError" % (key[:80], bad[0][1], bad[0][2]),
                    facts={"uses": len(uses)})
-    if only is None and n_sites < 4:
-        raise AnalysisError("vacuity guard: R-OPT-DEREF matched %d optional results (floor 4)" % n_sites)
+    if only is None and n_sites < 2:
+        raise AnalysisError("vacuity guard: R-OPT-DEREF matched %d optional results (floor 2)" % n_sites)
     # embedded positive example
     sample = ast.parse("def f(s):\n    return RX.match(s).groupdict()\n")
     ex = T.extract(sample.body[0])
